@@ -258,6 +258,12 @@ func corpus(thorough bool) []caseT {
 		`chunk([1, 2, 3, 4, 5], 2)`,
 		`coalesce(nil, {"z": 1, "a": 2})`,
 		`sprintf("%v %v", {"b": 1, "a": 2}, {2, 1})`,
+		// map literals wrapped over several lines, keys at different columns, with side effects and duplicates
+		"m := {\"alpha\": print(\"a\"), \"beta\": print(\"b\"),\n  \"c\": print(\"c\")}; m",
+		"m := {\"alpha\": print(\"a\"),\n\"b\": print(\"b\"), \"gamma\": print(\"g\"),\n      \"d\": print(\"d\")}; keys(m)",
+		"{\"k\": 1, \"j\": 2,\n\"k\": 3}",
+		"{\"kkkkkk\": 1,\n\"j\": 2, \"kkkkkk\": 3}",
+		"func f() { return {\"x\": print(1), \"y\": print(2),\n\"z\": print(3), \"x\": print(4)} }; f()",
 	}
 	for i, h := range hand {
 		for _, o := range []string{"default", "globals", "deny", "override"} {
